@@ -25,9 +25,31 @@ func VerifH_C12_changes() {
 	c := vConnect()
 	vt, err := c.vTable("t", false)
 	symAssert(err == nil, "table-ok")
+	// optionally a second writer on the same bucket, on its own connection
+	nw := symParam("writers", 1)
+	conns := []*vConn{c}
+	tabs := []*VirtualTable{vt}
+	if nw == 2 {
+		c2 := vConnect()
+		vt2, err := c2.vTable("t-second-writer", false)
+		symAssert(err == nil, "table-ok")
+		conns, tabs = append(conns, c2), append(tabs, vt2)
+	}
 	steps := symParam("steps", 3)
 	var vers []vVer
 	for i := 0; i < steps; i++ {
+		if nw == 2 {
+			wi := symChoice("writer", 2)
+			c, vt = conns[wi], tabs[wi]
+			if symChoice("refresh-first", 2) == 1 {
+				// the writer first merges what the other one committed
+				name := "t"
+				if wi == 1 {
+					name = "t-second-writer"
+				}
+				symAssert(!vRefresh(c, name), "refresh-ok")
+			}
+		}
 		t := "@t" + string(rune('0'+i))
 		symAssert(c.conn.Update(symSQLNull(), symSQLNoChange(), symSQLText(t)) == nil, "set-write-time-ok")
 		if i > 0 {
@@ -89,6 +111,7 @@ func VerifH_C12_changes() {
 		symAssume(f < 12)
 		bkt.faultOn, bkt.faultAt, bkt.faultPersistent = true, bkt.reqs+f, symChoice("persistent", 2) == 1
 	}
+	c, vt = conns[0], tabs[0]
 	ct := &ChangesTable{table: vt.common, module: c.changes, fromVer: A.names, toVer: B.names}
 	var gotK, gotB []int64
 	failed := false
